@@ -13,9 +13,9 @@ Definition frame_only (e : event) : Prop :=
 
 Section Generic.
 Variable decode : list N -> option msg.
-Variable method_kind : list N -> N.
-Variable req_ok : list N -> bool.
-Variable service : list N -> list N -> option sres.
+Variable method_kind : N -> list N -> N.
+Variable req_ok : N -> list N -> bool.
+Variable service : N -> list N -> list N -> option sres.
 Notation dispatch := (dispatch method_kind req_ok service).
 Notation body_phase := (body_phase decode method_kind req_ok service).
 Notation descriptor_ready := (descriptor_ready decode method_kind req_ok service).
@@ -31,6 +31,7 @@ Hypothesis P_call : forall cl ok st nm rq r tr r' evs,
   P r tr -> call_method cl ok st nm rq r = (r', evs) -> P r' (tr ++ evs).
 Hypothesis P_complete : forall cl ok r tr q res r' evs,
   P r tr -> request_complete cl ok r q res = (r', evs) -> P r' (tr ++ evs).
+Hypothesis P_setsvc : forall r tr k, P r tr -> P (set_svc r k) tr.
 
 Lemma body_phase_P ok f r avail f' r' rest evs tr :
   P r tr -> body_phase ok f r avail = (f', r', rest, evs) -> P r' (tr ++ evs).
@@ -86,10 +87,11 @@ Qed.
 Lemma step_P f r o f' r' evs tr :
   P r tr -> step f r o = (f', r', evs) -> P r' (tr ++ evs).
 Proof.
-  intros HP H. destruct o as [bs ok|st nm rq ok|q res ok]; cbn [Model.step] in H.
+  intros HP H. destruct o as [bs ok|st nm rq ok|q res ok|k]; cbn [Model.step] in H.
   - eapply feed_P; eauto.
   - destruct (call_method _ _ _ _ _ _) as [r1 evs1] eqn:Ec. inversion H; subst. eapply P_call; eauto.
   - destruct (request_complete _ _ _ _ _) as [r1 evs1] eqn:Ec. inversion H; subst. eapply P_complete; eauto.
+  - inversion H; subst. rewrite app_nil_r. apply P_setsvc. exact HP.
 Qed.
 
 Lemma run_P ops : forall f r f' r' evs tr,
